@@ -1,4 +1,4 @@
-import OrdModel.Num.SatSpec
+import OrdModel.Num.Sat
 /-!
 Helper lemmas for C29: the epoch table, `Epoch.ofSat`, the (height, offset) ↔ sat bijection.
 -/
